@@ -473,7 +473,6 @@ fn judge(p1: &[PathObs], p2: &[PathObs]) -> (Vec<Finding>, u64) {
         // steps, so which of THEM disagree is a function of the schedule alone; where the data
         // sits relative to them also depends on cache temperature. The pair reported in the
         // signature is therefore chosen among the settings first.
-        let nondata: Vec<&(&PathObs, u32)> = obs.iter().filter(|(o, _)| o.class != "data").collect();
         let data: Vec<&(&PathObs, u32)> = obs.iter().filter(|(o, _)| o.class == "data").collect();
         fn first_of<'a>(
             order: &[&str],
@@ -487,36 +486,49 @@ fn judge(p1: &[PathObs], p2: &[PathObs]) -> (Vec<Finding>, u64) {
                     .map(|(o, v)| (*o, *v))
             })
         }
-        let nmin = nondata.iter().map(|(_, v)| d(*v)).min();
-        let nmax = nondata.iter().map(|(_, v)| d(*v)).max();
         let mut pair: Option<(&PathObs, &PathObs)> = None;
-        if let (Some(nmin), Some(nmax)) = (nmin, nmax) {
-            if nmin != nmax {
-                let lo = first_of(&["schema", "acp", "dinfo"], &nondata, nmin, refv);
-                let hi = first_of(&["dinfo", "acp", "schema"], &nondata, nmax, refv);
-                if let (Some((l, _)), Some((h, _))) = (lo, hi) {
-                    pair = Some((l, h));
-                }
-            } else {
-                let x = nmin;
-                let anchor = first_of(&["dinfo", "acp", "schema"], &nondata, x, refv).map(|(o, _)| o);
-                let below = data.iter().find(|(_, v)| d(*v) < x).map(|(o, _)| *o);
-                let above = data.iter().find(|(_, v)| d(*v) > x).map(|(o, _)| *o);
-                if let Some(anchor) = anchor {
-                    if let Some(b) = below {
-                        pair = Some((b, anchor));
-                    } else if let Some(a) = above {
-                        pair = Some((anchor, a));
+        // first among access controls / domain info / data (observable in every configuration);
+        // the schema (observable only with the level-raise writer) is named only when it is the
+        // sole component that disagrees
+        for with_schema in [false, true] {
+            if pair.is_some() {
+                break;
+            }
+            let nondata: Vec<&(&PathObs, u32)> = obs
+                .iter()
+                .filter(|(o, _)| o.class != "data" && (with_schema || o.class != "schema"))
+                .collect();
+            let nmin = nondata.iter().map(|(_, v)| d(*v)).min();
+            let nmax = nondata.iter().map(|(_, v)| d(*v)).max();
+            if let (Some(nmin), Some(nmax)) = (nmin, nmax) {
+                if nmin != nmax {
+                    let lo = first_of(&["schema", "acp", "dinfo"], &nondata, nmin, refv);
+                    let hi = first_of(&["dinfo", "acp", "schema"], &nondata, nmax, refv);
+                    if let (Some((l, _)), Some((h, _))) = (lo, hi) {
+                        pair = Some((l, h));
+                    }
+                } else {
+                    let x = nmin;
+                    let anchor =
+                        first_of(&["dinfo", "acp", "schema"], &nondata, x, refv).map(|(o, _)| o);
+                    let below = data.iter().find(|(_, v)| d(*v) < x).map(|(o, _)| *o);
+                    let above = data.iter().find(|(_, v)| d(*v) > x).map(|(o, _)| *o);
+                    if let Some(anchor) = anchor {
+                        if let Some(b) = below {
+                            pair = Some((b, anchor));
+                        } else if let Some(a) = above {
+                            pair = Some((anchor, a));
+                        }
                     }
                 }
-            }
-        } else {
-            // no settings observed: data against data
-            let dmin = data.iter().min_by_key(|(_, v)| d(*v));
-            let dmax = data.iter().max_by_key(|(_, v)| d(*v));
-            if let (Some((l, lv)), Some((h, hv))) = (dmin, dmax) {
-                if d(*lv) != d(*hv) {
-                    pair = Some((*l, *h));
+            } else if with_schema {
+                // no settings observed at all: data against data
+                let dmin = data.iter().min_by_key(|(_, v)| d(*v));
+                let dmax = data.iter().max_by_key(|(_, v)| d(*v));
+                if let (Some((l, lv)), Some((h, hv))) = (dmin, dmax) {
+                    if d(*lv) != d(*hv) {
+                        pair = Some((*l, *h));
+                    }
                 }
             }
         }
@@ -678,8 +690,8 @@ impl Sched {
     }
 }
 
-const PARK_TIMEOUT: StdDuration = StdDuration::from_secs(8);
-const FINISH_TIMEOUT: StdDuration = StdDuration::from_secs(40);
+const PARK_TIMEOUT: StdDuration = StdDuration::from_secs(30);
+const FINISH_TIMEOUT: StdDuration = StdDuration::from_secs(120);
 
 fn spawn_reader(
     srv: Arc<Srv>,
